@@ -230,7 +230,7 @@ class BMSMap(Map[BMSNoteList, BMSHitList, BMSHoldList, BMSBpmList], BMSMapMeta):
             )
 
         assert (
-            len(self.bpms) < 35 * 36 + 35
+            len(self.bpms) <= 35 * 36 + 35
         ), f"The writer doesn't support more than {35 * 36 + 35} BPMs."
 
         exbpms = []
